@@ -416,3 +416,122 @@ func extraC10Safetensors(c *Ctx) {
 	c.Expect(rule, "variables filled from the file in parseSafetensors", nSeeds, 2)
 	c.Expect(rule, "sink uses of file-controlled values in the safetensors reader", nS, 6)
 }
+
+func init() {
+	prev := registry["C10"].Run
+	registry["C10"].Run = func(c *Ctx) { prev(c); extraC10ConvertConfig(c) }
+}
+
+// extraC10ConvertConfig is C10-R12: numbers taken from an uploaded config.json (every integer field
+// with a json tag of a struct of package convert) under the sink rules of R1, in all of package convert.
+func extraC10ConvertConfig(c *Ctx) {
+	rule := "C10-R12"
+	c.Rule(rule, "the converters do not divide by, index with or size anything by an unchecked number from the uploaded config.json: in package convert every integer struct field that carries a json tag is file-controlled (the converter structs are filled by json.Unmarshal from the upload), and such a value reaches a divisor only behind a non-zero test, an allocation size or index only behind bounds (the conversion runs in the create goroutine: a missing num_attention_heads must produce an error or a skipped key, not an integer divide by zero that ends the server)")
+	pkg := c.P.Pkgs["convert"]
+	if pkg == nil {
+		c.Undecided(rule, "anchor:pkg:convert", "-", "package not loaded")
+		return
+	}
+	// fields with a json tag
+	tagged := map[*types.Var]bool{}
+	for _, nm := range pkg.Types.Scope().Names() {
+		tn, ok := pkg.Types.Scope().Lookup(nm).(*types.TypeName)
+		if !ok {
+			continue
+		}
+		var walk func(t types.Type, depth int)
+		walk = func(t types.Type, depth int) {
+			st, isS := t.Underlying().(*types.Struct)
+			if !isS || depth > 3 {
+				return
+			}
+			for i := 0; i < st.NumFields(); i++ {
+				f := st.Field(i)
+				if strings.Contains(st.Tag(i), "json:") {
+					tagged[f] = true
+				}
+				walk(f.Type(), depth+1)
+			}
+		}
+		walk(tn.Type(), 0)
+	}
+	extra := func(info *types.Info, e ast.Expr) (string, bool) {
+		if se, ok := ast.Unparen(e).(*ast.SelectorExpr); ok {
+			if fv := core.FieldVar(info, se); fv != nil && tagged[fv] && isIntType(fv.Type()) {
+				return "config.json (" + fv.Name() + ")", true
+			}
+		}
+		return "", false
+	}
+	nS, nF := 0, 0
+	for _, top := range c.P.FuncsOf("convert") {
+		if strings.HasSuffix(c.Pos(top.Body), "_test.go") {
+			continue
+		}
+		nF++
+		for _, f := range append([]*core.Func{top}, top.Lits()...) {
+			tc := newTaintCtxOpts(c, f, nil, false, extra)
+			reports := tc.sinks()
+			sort.Slice(reports, func(a, b int) bool { return reports[a].node.Pos() < reports[b].node.Pos() })
+			seq := map[string]int{}
+			for _, r := range reports {
+				if !strings.Contains(r.why, "config.json") {
+					continue // other sources are R11's (safetensors) or R1's
+				}
+				nS++
+				k := r.kind + ":" + tc.stableExpr(r.what, r.node)
+				seq[k]++
+				key := f.Key() + " " + k
+				if seq[k] > 1 {
+					key += "#" + itoa(seq[k])
+				}
+				c.Check(rule, key, c.Pos(r.node), r.ok, "value from config.json ("+r.why+") reaches "+r.kind+" `"+r.what+"` without "+r.need)
+			}
+		}
+	}
+	// loops whose trip count comes from config.json and whose body grows a slice: memory out of
+	// proportion to the upload unless the count is bounded
+	nL := 0
+	for _, top := range c.P.FuncsOf("convert") {
+		if strings.HasSuffix(c.Pos(top.Body), "_test.go") {
+			continue
+		}
+		tc := newTaintCtxOpts(c, top, nil, false, extra)
+		info := top.Info()
+		seq := 0
+		core.InspectShallow(top.Body, func(n ast.Node) bool {
+			var body *ast.BlockStmt
+			var cnt ast.Expr
+			switch x := n.(type) {
+			case *ast.RangeStmt:
+				if isIntType(info.Types[x.X].Type) {
+					body, cnt = x.Body, x.X
+				}
+			case *ast.ForStmt:
+				if be, ok := x.Cond.(*ast.BinaryExpr); ok && (be.Op == token.LSS || be.Op == token.LEQ) {
+					body, cnt = x.Body, be.Y
+				}
+			}
+			if body == nil {
+				return true
+			}
+			t, why := tc.taintOf(cnt)
+			if !t || !strings.Contains(why, "config.json") {
+				return true
+			}
+			grows := len(core.CallsTo(info, body, false, "builtin.append")) > 0 || len(core.CallsTo(info, body, false, "builtin.make")) > 0
+			if !grows {
+				return true
+			}
+			nL++
+			seq++
+			b := tc.boundsAt(cnt, tc.g.Locate(n))
+			c.Check(rule, top.Key()+" growth-loop#"+itoa(seq), c.Pos(n), b.upper, "a loop that appends once per iteration runs "+core.ExprString(cnt)+" times, a number taken from config.json ("+why+") with no upper bound")
+			return true
+		})
+	}
+	c.Count(rule+" growth loops with a config.json trip count", nL)
+	c.Expect(rule, "json-tagged fields of package convert", len(tagged), 50)
+	c.Expect(rule, "functions of package convert analysed", nF, 60)
+	c.Expect(rule, "sink uses of config.json values", nS, 5)
+}
